@@ -351,8 +351,62 @@ package server
 
 // dropping the transaction table after a connection was found closed must return what it drops
 //@ func (*SessionExecutor).recycleTx
-//@   requires se != nil && ledger(se)
-//@   ensures case ledger: ledger(se)
+//@   requires se != nil && txHeld(se)
+//@   assigns se.txConns
+//@   ensures case dropped: old(inTx(se)) ==> se.txConns != nil && fresh(se.txConns) && len(se.txConns) == 0 && forall(k string, !has(se.txConns, k))
+//@   ensures case kept:    !old(inTx(se)) ==> se.txConns == old(se.txConns) && len(se.txConns) == old(len(se.txConns)) && forall(k string, has(se.txConns, k) == old(has(se.txConns, k)) && se.txConns[k] == old(se.txConns[k]))
+//@   ensures case ledger:  old(ledger(se)) ==> ledger(se)
+
+// after a statement: the connection it used is returned unless it stays pinned (transaction, keep-session) or is kept for
+// streaming further rows; `loose` = taken for this statement only (pinned nowhere, charged to the session on top of the tables)
+//@ pure loose(se *SessionExecutor, pc backend.PooledConnect) bool = forall(k string, has(se.txConns, k) ==> se.txConns[k] != pc) && forall(k string, has(se.ksConns, k) ==> se.ksConns[k] != pc)
+// how the connection is held, as specification-only parameters (any values): pinKind 0 = loose, 1 = transaction connection of slice
+// pinKey, 2 = keep-session connection of slice pinKey
+//@ ghost pinKind int
+//@ ghost pinKey string
+// a closed keep-session connection is forgotten before it is returned (otherwise it is returned again when the client exits)
+//@ func (*SessionExecutor).unpinKsConn
+//@   requires se != nil
+//@   requires case single: forall(a string, forall(b string, has(se.ksConns, a) && has(se.ksConns, b) && se.ksConns[a] == se.ksConns[b] ==> a == b))
+//@   requires case where:  (pinKind == 2 ==> has(se.ksConns, pinKey) && se.ksConns[pinKey] == pc) && (pinKind != 2 ==> forall(k string, has(se.ksConns, k) ==> se.ksConns[k] != pc))
+//@   assigns mapof(se.ksConns)
+//@   loop 0 assigns se.ksConns
+//@   loop 0 invariant case same:    se.ksConns == old(se.ksConns) && forall(k string, visited(k) ==> old(has(se.ksConns, k)))
+//@   loop 0 invariant case kept:    forall(k string, old(has(se.ksConns, k)) && !(visited(k) && old(se.ksConns[k]) == pc) ==> has(se.ksConns, k) && se.ksConns[k] == old(se.ksConns[k]))
+//@   loop 0 invariant case gone:    forall(k string, !old(has(se.ksConns, k)) || (visited(k) && old(se.ksConns[k]) == pc) ==> !has(se.ksConns, k))
+//@   loop 0 invariant case count:   len(se.ksConns) == old(len(se.ksConns)) - ite(pinKind == 2 && visited(pinKey), 1, 0)
+//@   ensures case kept:   forall(k string, old(has(se.ksConns, k)) && old(se.ksConns[k]) != pc ==> has(se.ksConns, k) && se.ksConns[k] == old(se.ksConns[k]))
+//@   ensures case gone:   forall(k string, has(se.ksConns, k) ==> old(has(se.ksConns, k)) && se.ksConns[k] != pc && se.ksConns[k] == old(se.ksConns[k]))
+//@   ensures case count:  len(se.ksConns) == old(len(se.ksConns)) - ite(pinKind == 2, 1, 0) && se.ksConns == old(se.ksConns)
+//@ func (*SessionExecutor).recycleBackendConn
+//@   requires se != nil && se.session != nil && se.session.executor == se && curNs(se.session) != nil && txHeld(se) && ksHeld(se)
+//@   requires pc != nil ==> connOut[pc] == 1 && 0 <= pinKind && pinKind <= 2
+//@   requires case held0:   pc != nil && pinKind == 0 ==> loose(se, pc) && !inTx(se) && !se.keepSession
+//@   requires case held1:   pc != nil && pinKind == 1 ==> has(se.txConns, pinKey) && se.txConns[pinKey] == pc && inTx(se) && !se.keepSession
+//@   requires case held2:   pc != nil && pinKind == 2 ==> has(se.ksConns, pinKey) && se.ksConns[pinKey] == pc && se.keepSession && len(se.txConns) == 0
+//@   requires case charged: sessOut == len(se.txConns) + len(se.ksConns) + ite(pc != nil && pinKind == 0, 1, 0)
+//@   ghost-update after call Recycle#0: sessOut = sessOut - 1
+//@   ghost-update after call Recycle#1: sessOut = sessOut - 1
+//@   ensures case none:     pc == nil ==> ledger(se) && sessOut == old(sessOut) && forall(c backend.PooledConnect, connOut[c] == old(connOut[c]))
+//@   ensures case loose:    pc != nil && pinKind == 0 ==> (connOut[pc] == 0 && sessOut == old(sessOut) - 1) || (se.session.continueConn != nil && connOut[pc] == 1 && sessOut == old(sessOut))
+//@   ensures case looseRest: pc != nil && pinKind == 0 ==> se.ksConns == old(se.ksConns) && forall(c backend.PooledConnect, c != pc ==> connOut[c] == old(connOut[c])) && forall(k string, has(se.txConns, k) == old(has(se.txConns, k)) && se.txConns[k] == old(se.txConns[k])) && len(se.txConns) == old(len(se.txConns))
+//@   ensures case looseLedger: pc != nil && pinKind == 0 && connOut[pc] == 0 ==> ledger(se)
+//@   ensures case pinned:   pc != nil && pinKind != 0 ==> ledger(se)
+// the same for the connection kept for streaming, once the stream is finished
+//@ func (*SessionExecutor).recycleContinueConn
+//@   requires se != nil && se.session != nil && se.session.executor == se && curNs(se.session) != nil && txHeld(se) && ksHeld(se)
+//@   requires pc != nil ==> connOut[pc] == 1 && 0 <= pinKind && pinKind <= 2
+//@   requires case held0:   pc != nil && pinKind == 0 ==> loose(se, pc) && !inTx(se) && !se.keepSession
+//@   requires case held1:   pc != nil && pinKind == 1 ==> has(se.txConns, pinKey) && se.txConns[pinKey] == pc && inTx(se) && !se.keepSession
+//@   requires case held2:   pc != nil && pinKind == 2 ==> has(se.ksConns, pinKey) && se.ksConns[pinKey] == pc && se.keepSession && len(se.txConns) == 0
+//@   requires case charged: sessOut == len(se.txConns) + len(se.ksConns) + ite(pc != nil && pinKind == 0, 1, 0)
+//@   ghost-update after call Recycle#0: sessOut = sessOut - 1
+//@   ghost-update after call Recycle#1: sessOut = sessOut - 1
+//@   ensures case none:     pc == nil ==> ledger(se) && sessOut == old(sessOut) && forall(c backend.PooledConnect, connOut[c] == old(connOut[c]))
+//@   ensures case loose:    pc != nil && pinKind == 0 ==> connOut[pc] == 0 && sessOut == old(sessOut) - 1
+//@   ensures case looseRest: pc != nil && pinKind == 0 ==> se.ksConns == old(se.ksConns) && forall(c backend.PooledConnect, c != pc ==> connOut[c] == old(connOut[c])) && forall(k string, has(se.txConns, k) == old(has(se.txConns, k)) && se.txConns[k] == old(se.txConns[k])) && len(se.txConns) == old(len(se.txConns))
+//@   ensures case looseLedger: pc != nil && pinKind == 0 && connOut[pc] == 0 ==> ledger(se)
+//@   ensures case pinned:   pc != nil && pinKind != 0 ==> ledger(se)
 
 // client exit in keep-session mode: every pinned connection is closed and returned exactly once
 //@ func (*SessionExecutor).handleKsQuit
@@ -413,6 +467,7 @@ package server
 //@   ensures ret0 == curNs(cc)
 //@ func (*Session).clearKsConns
 //@   requires cc != nil && cc.executor != nil && ledger(cc.executor) && curNs(cc) != nil
+//@   assigns connOut, sessOut, cc.executor.ksConns
 //@   ghost-update after call Recycle#0: sessOut = sessOut - 1
 //@   loop 0 invariant cc.executor == old(cc.executor) && cc.executor.txConns == old(cc.executor.txConns) && cc.executor.ksConns == old(cc.executor.ksConns) && sessOut == old(sessOut) - iterations() && txHeld(cc.executor)
 //@   loop 0 invariant forall(k string, has(cc.executor.ksConns, k) == old(has(cc.executor.ksConns, k)) && cc.executor.ksConns[k] == old(cc.executor.ksConns[k])) && forall(k string, has(cc.executor.ksConns, k) ==> cc.executor.ksConns[k] != nil && connOut[cc.executor.ksConns[k]] == ite(visited(k), 0, 1))
@@ -451,7 +506,7 @@ package server
 //@   (*SessionExecutor).getBackendNoKsConn, (*SessionExecutor).getBackendConn, (*SessionExecutor).commit, (*SessionExecutor).rollback
 //@ property C19: (*SessionExecutor).isInTransaction, (*SessionExecutor).isAutoCommit, (*SessionExecutor).IsKeepSession, (*SessionExecutor).GetNamespace,
 //@   (*Namespace).GetSlice, (*Namespace).GetUserProperty, (*SessionExecutor).getTransactionConn, (*SessionExecutor).getBackendKsConn, (*SessionExecutor).getBackendNoKsConn,
-//@   (*SessionExecutor).getBackendConn, (*SessionExecutor).commit, (*SessionExecutor).rollback, (*SessionExecutor).recycleTx, (*SessionExecutor).handleKsQuit,
+//@   (*SessionExecutor).getBackendConn, (*SessionExecutor).commit, (*SessionExecutor).rollback, (*SessionExecutor).recycleTx, (*SessionExecutor).unpinKsConn, (*SessionExecutor).recycleBackendConn, (*SessionExecutor).recycleContinueConn, (*SessionExecutor).handleKsQuit,
 //@   (*SessionExecutor).recycleBackendConns, (*Session).clearKsConns, (*SessionExecutor).handleKeepSessionPing
 //@ property C23: (*SessionExecutor).getBackendKsConn, (*SessionExecutor).getBackendConn, (*Session).clearKsConns, (*Session).shouldClearKsAndCloseSession,
 //@   (*Session).execCommand, (*SessionExecutor).handleKsQuit, (*SessionExecutor).handleKeepSessionPing
